@@ -234,6 +234,49 @@ impl RawConnection {
         (conn, broken, label_rx)
     }
 
+    /// Like `spawn_with_events`, with the event channel in a chosen condition:
+    /// mode 0 = capacity 1024, drained by a task (as `spawn_with_events`);
+    /// mode 1 = the receiver is DROPPED at once (`event_sender.send` fails:
+    ///          `CqlEventHandlingError::SendError`);
+    /// mode 2 = capacity 1 and NEVER drained (the receiver is leaked, so the channel stays open):
+    ///          the second forwarded event blocks the reader in `event_sender.send(..).await`.
+    /// The returned label receiver yields labels only in mode 0 (it is an empty, closed channel
+    /// otherwise).
+    pub fn spawn_with_events_mode<S>(
+        stream: S,
+        keepalive_interval: Option<Duration>,
+        keepalive_timeout: Option<Duration>,
+        write_coalescing: bool,
+        mode: u8,
+    ) -> (Self, oneshot::Receiver<String>, mpsc::Receiver<String>)
+    where
+        S: AsyncRead + AsyncWrite + Send + 'static,
+    {
+        if mode == 0 {
+            return Self::spawn_with_events(
+                stream,
+                keepalive_interval,
+                keepalive_timeout,
+                write_coalescing,
+            );
+        }
+        let (ev_tx, ev_rx) = mpsc::channel::<Event>(if mode == 1 { 1024 } else { 1 });
+        if mode == 1 {
+            drop(ev_rx);
+        } else {
+            std::mem::forget(ev_rx);
+        }
+        let (_label_tx, label_rx) = mpsc::channel::<String>(1);
+        let (conn, broken) = Self::spawn_inner(
+            stream,
+            keepalive_interval,
+            keepalive_timeout,
+            write_coalescing,
+            Some(ev_tx),
+        );
+        (conn, broken, label_rx)
+    }
+
     fn spawn_inner<S>(
         stream: S,
         keepalive_interval: Option<Duration>,
